@@ -367,6 +367,21 @@ def main():
         rows.append(f"({lstr(lang)}, {llist(names)})")
     t.append("/-- language ↦ every configured month spelling ↦ month number -/")
     t.append("def monthNames : List (String × List (String × Nat)) := " + llist(rows) + "\n")
+    # printed word of every unit and the words its literals are read with (C15)
+    rows = []
+    for fam in sorted(cfg["types"], key=lambda f: f["name"].encode()):
+        for it in sorted(fam["items"], key=lambda i: int(i["index"])):
+            if it.get("upgrade_code") is None or it.get("downgrade_code") is None:
+                continue
+            printed = it["format"].replace("{value}", "").strip()
+            words = []
+            for p_ in it["parse"]:
+                m_ = re.match(r"^\{NUMBER:value\} (?:\{TEXT:type:(\w+)\}|(\w+))$", p_)
+                if m_:
+                    words.append(m_.group(1) or m_.group(2))
+            rows.append(f"({lstr(fam['name'])}, {it['index']}, {lstr(printed)}, {llist([lstr(w) for w in words])})")
+    t.append("/-- (family, index, the word the unit is printed with, the words its literals are read with) -/")
+    t.append("def unitWords : List (String × Nat × String × List String) := " + llist(rows) + "\n")
     t.append("/-- parser order of TOKEN_REGEX_PARSER -/")
     t.append("def parserOrder : List String := " + llist([lstr(x) for x in order]) + "\n")
     t.append("end SC.Gen\n")
